@@ -8,7 +8,7 @@ TWO_PI = 2 * np.pi
 METHODS = ['hilbert', 'nht', 'quad']
 RATES = [64.0, 128.0, 256.0, 1000.0, 4000.0]
 
-RULE = ("Cases: (consistency) methods {hilbert,nht,quad} x sample rates {64..4000} x smooth in-band AM-FM inputs with "
+RULE = ("Cases: (consistency) methods {hilbert,nht,quad} x sample rates {64..4000} x smooth_phase in {default, 3, 31, None, 0} x smooth in-band AM-FM inputs with "
         "1-3 columns; (sinusoid) pure cosines with >=6 cycles per record, f <= sr/12, amplitude over 3 decades, start "
         "phase in [0,2pi); (roundtrip) frequency profiles {constant, ramp, sinusoidally modulated, random smooth} in 1-3 "
         "columns through phase_from_freq -> freq_from_phase; (scale) x -> c*x for c=2^k (|k|<=8) and real c in "
@@ -43,11 +43,16 @@ def amfm_case(draw):
             'n': draw(st.integers(200, 1500)), 'k': draw(st.integers(0, 2**32 - 1)),
             'f_rel': draw(st.sampled_from([0.01, 0.02, 0.04, 0.07])),
             'am': draw(st.sampled_from([0.0, 0.2, 0.5])), 'fm': draw(st.sampled_from([0.0, 0.5, 1.5])),
-            'ncols': draw(st.integers(1, 3))}
+            'ncols': draw(st.integers(1, 3)), 'smooth': draw(st.sampled_from(['default', 'default', 3, 31, None, 0]))}
 
 
-def ft(emd, x, sr, method, sig):
+SMOOTH = ['default', 'default', 3, 31, None, 0]
+
+
+def ft(emd, x, sr, method, sig, smooth='default'):
     try:
+        if smooth != 'default':
+            return emd.spectra.frequency_transform(x, sr, method, smooth_phase=smooth)
         return emd.spectra.frequency_transform(x, sr, method)
     except Exception as e:
         raise Violation('C09/%s/raises/%s/%s' % (sig, type(e).__name__, method), repr(e))
@@ -57,7 +62,8 @@ def oracle_consistency(case, rec):
     import emd
     x = amfm(case['n'], case['sr'], case['k'], case['f_rel'], case['am'], case['fm'], case['ncols'])
     x0 = x.copy()
-    IP, IF, IA = ft(emd, x, case['sr'], case['method'], 'consistency')
+    IP, IF, IA = ft(emd, x, case['sr'], case['method'], 'consistency', case.get('smooth', 'default'))
+    rec.cls('smooth_phase=%s' % (case.get('smooth', 'default'),))
     m = case['method']
     if not np.array_equal(x, x0):
         raise Violation('C09/consistency/input-modified/' + m, '')
@@ -89,7 +95,7 @@ def sin_case(draw):
     ncyc = draw(st.floats(6, 40))
     return {'method': draw(st.sampled_from(METHODS)), 'sr': sr, 'frel': frel, 'ncyc': ncyc,
             'logA': draw(st.floats(-1.5, 1.5)), 'ph0': draw(st.floats(0, 6.28)),
-            'ncols': draw(st.integers(1, 3))}
+            'ncols': draw(st.integers(1, 3)), 'smooth': draw(st.sampled_from(['default', 'default', 'default', 3, None, 0]))}
 
 
 TOL = {'hilbert': (0.05, 0.12, 0.06, 0.12, 0.06, 0.15), 'nht': (0.05, 0.12, 0.06, 0.12, 0.06, 0.15),
@@ -114,7 +120,8 @@ def oracle_sin(case, rec):
         cols.append(Ac * np.cos(TWO_PI * fc * t + pc))
         truth.append((fc, Ac, np.mod(TWO_PI * fc * t + pc + np.pi / 2, TWO_PI)))
     x = np.array(cols).T
-    IP, IF, IA = ft(emd, x, sr, m, 'sinusoid')
+    IP, IF, IA = ft(emd, x, sr, m, 'sinusoid', case.get('smooth', 'default'))
+    rec.cls('smooth_phase=%s' % (case.get('smooth', 'default'),))
     if IP.shape != x.shape or IF.shape != x.shape or IA.shape != x.shape:
         raise Violation('C09/sinusoid/shape/' + m, '')
     sl = slice(n // 4, 3 * n // 4)
